@@ -217,7 +217,7 @@ func checkMain(args []string) int {
 		r := resOf[o]
 		handled := false
 		for _, k := range known {
-			if k.Kind != "known" || k.Property != id || k.Obligation != o.Name {
+			if k.Kind != "known" || !propListed(k.Property, id) || k.Obligation != o.Name {
 				continue
 			}
 			// is the failure confined to the listed region?
@@ -489,6 +489,16 @@ func collectLens(v Val, out *[]Term) {
 			collectLens(f, out)
 		}
 	}
+}
+
+// propListed: the finding's property field is one id or a comma-separated list.
+func propListed(list, id string) bool {
+	for _, p := range strings.Split(list, ",") {
+		if strings.TrimSpace(p) == id {
+			return true
+		}
+	}
+	return false
 }
 
 func isNamedKind(name string) bool {
